@@ -356,14 +356,35 @@ impl PatternFusion for ReciprocalFusion {
     }
 
     fn pattern(&self) -> Pattern {
-        1. / Pattern::symbol("x")
+        (1. / Pattern::symbol("x")).with_name("div")
     }
 
     fn inputs(&self) -> &[&str] {
         &["x"]
     }
 
-    fn maybe_fuse(&self, _: &Match, _: &Graph) -> Result<Reciprocal, FusionError> {
+    fn maybe_fuse(&self, pat_match: &Match, g: &Graph) -> Result<Reciprocal, FusionError> {
+        // The constant numerator may be a single-element tensor of any rank.
+        // If it has more dims than `x`, the output is `1 / x` broadcast to a
+        // higher rank, which `Reciprocal(x)` does not produce.
+        let x_id = pat_match.node_id("x").unwrap();
+        let div_id = pat_match.node_id("div").unwrap();
+        let const_ndim = g
+            .get_node(div_id)
+            .and_then(|n| n.as_operator())
+            .and_then(|op| op.input_ids().first().copied().flatten())
+            .and_then(|id| g.get_node(id))
+            .and_then(|n| n.as_constant())
+            .map(|c| c.ndim())
+            .unwrap_or(0);
+        if const_ndim > 0 {
+            let x_ndim = g.get_node(x_id).and_then(|n| n.shape().map(|s| s.len()));
+            if !x_ndim.is_some_and(|x_ndim| const_ndim <= x_ndim) {
+                return Err(FusionError::CheckFailed(
+                    "constant may broadcast input to higher rank",
+                ));
+            }
+        }
         Ok(Reciprocal {})
     }
 }
